@@ -1362,10 +1362,23 @@ class Analysis(object):
 
 
 class Diverged(Exception):
-    """The worklist visited more nodes than any terminating run on programs of this size does."""
+    """The walk does not end.  kind = 'periodic': the sequence of (node, out state) repeated exactly three
+    times in a row -- the worklist is in a cycle (certain non-termination as far as the states show);
+    kind = 'growth': a tuple tag nested deeper than 20 levels / longer than 60 elements (unbounded ascending chain);
+    kind = 'budget': more visits than VISIT_FACTOR x nodes x (names + 1), or more than TIME_LIMIT seconds.
+    shrunk: some node's out state LOST a type between two of its visits (a non-monotone step)."""
+
+    def __init__(self, kind, shrunk, visits):
+        Exception.__init__(self, kind)
+        self.kind = kind
+        self.shrunk = shrunk
+        self.visits = visits
 
 
-VISIT_BUDGET = 4000
+VISIT_FACTOR = 200        # a terminating walk needs a small multiple of nodes x names visits; 200x is generous
+VISIT_BUDGET = None       # (tests may set an absolute cap)
+TIME_LIMIT = 60.0
+PERIOD_CHECK_FROM = 1500
 
 
 def analyze(prog, resolver):
@@ -1402,12 +1415,55 @@ def analyze(prog, resolver):
         orig_si_init(self, *a, **kw)
         created.append(self)
 
+    import time as _time
+    t0 = _time.time()
+    nnodes = sum(len(g.index) for g in graphs.values())
+    names = set(n.id for n in prog.nodes if isinstance(n, ast.Name)) | set(n.arg for n in prog.nodes if isinstance(n, ast.arg))
+    budget = VISIT_BUDGET or max(4000, VISIT_FACTOR * nnodes * (len(names) + 1))
+    hist = []
+    prev_out = {}
+    shrunk = [False]
+
+    def canon(tm):
+        return tuple(sorted((str(k), tuple(sorted(tname(t) for t in v))) for k, v in tm.types.items()))
+
     def visit_node(self, node):
         visits[0] += 1
-        if visits[0] > VISIT_BUDGET:
-            raise Diverged()
+        if visits[0] > budget or (visits[0] % 256 == 0 and _time.time() - t0 > TIME_LIMIT):
+            raise Diverged('budget', shrunk[0], visits[0])
         del created[:]
         res = orig_visit(self, node)
+        for v in self.out[node].types.values():
+            for t in v:
+                d, u = 0, t
+                while isinstance(u, tuple) and u:
+                    if len(u) > 60:
+                        d = 99
+                        break
+                    d, u = d + 1, max(u, key=lambda e: 1 if isinstance(e, tuple) else 0)
+                if d > 20:
+                    # structural tuple tags nested / grown beyond anything the program text contains
+                    raise Diverged('growth', shrunk[0], visits[0])
+        cur = {str(k): frozenset(v) for k, v in self.out[node].types.items()}
+        old = prev_out.get(id(node))
+        if old is not None and any(not (cur.get(k, frozenset()) >= v) for k, v in old.items()):
+            shrunk[0] = True
+        prev_out[id(node)] = cur
+        if visits[0] > PERIOD_CHECK_FROM:
+            hist.append((id(node), canon(self.out[node])))
+            if len(hist) % 200 == 0:
+                # period = distance to the previous occurrence of the latest state; three identical periods in a row
+                lastk = hist[-1]
+                tried = 0
+                for p in range(2, min(len(hist) // 3, 4000)):
+                    if hist[-1 - p] == lastk:
+                        if hist[-p:] == hist[-2 * p:-p] == hist[-3 * p:-2 * p]:
+                            raise Diverged('periodic', shrunk[0], visits[0])
+                        tried += 1
+                        if tried > 40:
+                            break
+                if len(hist) > 16000:
+                    del hist[:4000]
         if created:
             # names the inferrer typed at the LAST visit of this node (annotations may be left over from earlier visits)
             last_new[id(node.ast_node)] = set(str(k) for k in created[-1].new_symbols)
